@@ -159,6 +159,29 @@ Example C07_nf_nonvacuous :
   end.
 Proof. split; [exact ex_nf_ok|split; [reflexivity|vm_compute; split; reflexivity]]. Qed.
 
+(* ... and with sectioning: syntax trees of text, plain commands (\\par included), environments and sectioning units [SSec h body]
+   (every item of the body above the unit's level; behind a unit stands nothing or an item of a level not above its own —
+   [chain]).  Parsing the printed item sequence gives [sden]: an environment holds exactly its body, a sectioning unit holds
+   Macro.paragraphs of exactly its body — so units nest by level, a unit ends where the next item of its level or above begins,
+   and (C07_digest_sections_wf, the C07_paragraphs theorems) its children are paragraphs and deeper units, in source order. *)
+Theorem C07_nf_parse_sections :
+  forall (subs : list (list Z * list Z)) (pn : Z) (l : list sast),
+    oks2 subs pn (sast_ok subs pn) (fun _ => True) l -> chain subs pn l None ->
+    exists s', parse_doc subs pn (flat_map sprint l) = Done (map (sden subs pn) l, s') /\
+               s_buf s' = [] /\ s_rest s' = [] /\ s_ev s' = [] /\
+               Forall (fun e => fst e = R_END \/ fst e = R_EMPTYPAR) (s_log s').
+Proof. exact nf2_parse. Qed.
+Print Assumptions C07_nf_parse_sections.
+
+Example C07_nf_sections_nonvacuous :
+  (oks2 ex_subs 0 (sast_ok ex_subs 0) (fun _ => True) ex_nf2 /\ chain ex_subs 0 ex_nf2 None) /\
+  length (flat_map sprint ex_nf2) = 14%nat /\
+  match parse_doc ex_subs 0 (flat_map sprint ex_nf2) with
+  | Done (forest, s') => forest = map (sden ex_subs 0) ex_nf2 /\ forallb wf_sections_b forest = true /\ length (s_log s') = 2%nat
+  | _ => False
+  end.
+Proof. split; [exact ex_nf2_ok|split; [reflexivity|vm_compute; repeat split; reflexivity]]. Qed.
+
 (* the boolean forms of the hypotheses on the table, as the harness evaluates them *)
 Theorem C07_table_hypotheses :
   forall (keep : Z -> bool) (subs : list (list Z * list Z)),
